@@ -12,6 +12,8 @@ mod program;
 mod errors;
 mod lexer;
 mod io;
+#[cfg(hclrs_verif)]
+pub mod verif_hooks;
 #[cfg(test)]
 mod tests;
 
